@@ -29,14 +29,20 @@ def build(tier, seed):
                 cases.append({"id": f"edge{r}-{suites.VNAME[v]}-{code:04X}-{w}", "kind": "tls", "v": v, "code": code, "rep": r, "edge": w})
     for i in range(600 if thorough else 24):
         cases.append({"id": f"quic-edge-{i}", "kind": "quic", "i": i, "edge": EDGE_WHICH[i % len(EDGE_WHICH)]})
+    # histories: what is installed for a connection must not depend on the connections handled before it in the same process - a session and its resumption
+    # (same master secret, version and suite, fresh randoms), unrelated connections with the same suite, the same in two run() calls of one process
+    for i in range(1500 if thorough else 90):
+        cases.append({"id": f"pair-{i}", "kind": "pair", "i": i})
 
     def evalfn(case):
         rng = random.Random(engine.subseed("C15", seed, case["id"]))
+        if case["kind"] == "pair":
+            return eval_pair(case, rng)
         return eval_tls(case, rng) if case["kind"] == "tls" else eval_quic(case, rng)
 
     return dict(cases=cases, evalfn=evalfn, level="exploration", min_nontrivial=len(mx),
                 rule="TLS: every frozen supported suite x valid version with random master/traffic secrets and randoms (2 draws quick, 20 thorough), "
-                     "handshake shapes varied (resumed, EtM, +-handshake secrets); QUIC: random connections over 4 suites x original DCID length 8..20 x CID "
+                     "handshake shapes varied (resumed, EtM, +-handshake secrets); pairs: 2-3 TLS connections of one suite in one process (a session and its resumptions, or unrelated), in one capture or one capture per run() call, every connection's installed keys compared; QUIC: random connections over 4 suites x original DCID length 8..20 x CID "
                      "lengths 0..20 x Retry x 0-RTT x 0..3 key-update generations. Class = (protocol, version/suite, shape); non-trivial = the key-installation "
                      "monitor fired and every RFC-defined component was compared",
                 assumptions=["vlib.refkdf (checked against RFC 5869 / RFC 9001 A.1, A.5 vectors at setup)"])
@@ -146,6 +152,17 @@ def eval_tls(case, rng):
         return dict(out, v="inconclusive", msg="Decryptor.__init__ was never reached: the key-installation monitor observed nothing", nontrivial=False)
     e = inits[-1]
     msgs = []
+    n = compare_installed(e, conn, spec, p, msgs)
+    out["mon"] = {"tls.key_components_compared": n, "tls.decryptor_init_events": len(inits)}
+    out["nontrivial"] = n > 0
+    if msgs:
+        return dict(out, v="violated", msg=f"{suites.VNAME[v]} {suites.REGISTRY[code]}: " + "; ".join(msgs[:3]), files=files)
+    return dict(out, v="held")
+
+
+def compare_installed(e, conn, spec, p, msgs):
+    """one Decryptor.__init__ event against the reference key schedule of one connection -> number of components compared"""
+    v = spec.version
     n = 0
     rk = conn.ref_keys
     if v == 0x0304:
@@ -162,10 +179,80 @@ def eval_tls(case, rng):
                 n += cmp(f"{side}_write_MAC_secret", e.get(f"{side}_mac"), rk[f"{side}_mac"], msgs)
             if rk["iv_len"]:
                 n += cmp(f"{side}_write_IV", e.get(f"{side}_iv"), rk[f"{side}_iv"], msgs)
+    return n
+
+
+def eval_pair(case, rng):
+    """2-3 connections with the same version and suite handled by one process; every one of them must get the keys of ITS randoms and secrets"""
+    from vlib import gen, outparse
+    v, code, name, _p = suites.pick(rng)
+    p = suites.parse_name(suites.REGISTRY[code])
+    related = v != 0x0304 and rng.random() < 0.7
+    nconn = rng.choice([2, 2, 3])
+    flows = []
+    for k in range(nconn):
+        resume = rng.choice(flows) if flows and related else None
+        fl = gen.random_tls_flow(rng, k, nmax=4, version=v, code=code, segkinds=("mss", "whole"), resume_of=resume)
+        if resume is None and flows and related:
+            continue
+        flows.append(fl)
+    mode = rng.choice(["one-capture", "one-capture", "run-per-connection"])
+    keys = scene.keylog_text(flows, rng)
+    mon = monitors.TlsStateMonitor()
+    from vlib import runner
+    if mode == "one-capture":
+        items = scene.stamp(scene.merge(flows, rng, rng.choice(["concat", "random", "nested", "bursty"])), rng)
+        files = {"in.pcapng": scene.capture(items), "keys.log": keys}
+        argv = ["-i", "{dir}/in.pcapng", "-o", "{dir}/out.pcapng", "-s", "{dir}/keys.log"]
+        res = runner.run_tlexport(files, argv, child_setup=mon.install)
+    else:
+        files = {"keys.log": keys}
+        argv = []
+        for k, fl in enumerate(flows):
+            files[f"in{k}.pcapng"] = scene.capture(scene.stamp(scene.merge([fl], rng, "concat"), rng))
+            argv.append(["-i", f"{{dir}}/in{k}.pcapng", "-o", "{dir}/out.pcapng", "-s", "{dir}/keys.log"])
+        res = runner.run_tlexport(files, argv, child_setup=mon.install)
+    out = {"cls": ["pair", suites.VNAME[v], p["mode"], "related" if related else "unrelated", mode, len(flows)],
+           "tags": [f"pair:{suites.VNAME[v]}:{'resumption' if related else 'unrelated'}:{mode}"],
+           "sample": {"case": case["id"], "suite": suites.REGISTRY[code], "version": suites.VNAME[v], "connections": [f.label + " " + f.ep.describe() for f in flows], "mode": mode}}
+    fail = e2e.run_failed(res)
+    if fail:
+        return dict(out, v="inconclusive" if fail.startswith("INCONCLUSIVE") else "violated", msg=fail, files=files)
+    evs_all = monitors.parse_events(res.events)
+    inits = [e for e in evs_all if e["ev"] == "init"]
+    if any(e["ev"] == "monitor-unavailable" for e in evs_all) or (inits and not any(k in inits[-1] for k in ("client_key", "client_application_key"))):
+        if mode != "one-capture":
+            return dict(out, v="inconclusive", msg="key monitor unavailable (the output of the last run alone cannot speak for the earlier ones)", nontrivial=False)
+        an = outparse.Analysis(res.out)
+        m2 = [m for fl in flows for m in e2e.check_tls_streams(an, fl.conn, fl.ep, label=fl.label + " ")]
+        out["tags"].append("indirect")
+        if m2:
+            return dict(out, v="inconclusive", msg="key monitor unavailable and the export is not exact (C04 decides): " + m2[0][:200], nontrivial=False)
+        return dict(out, v="held", nontrivial=True, mon={"tls.keys_observed_indirectly": len(flows)})
+    if not inits:
+        return dict(out, v="inconclusive", msg="Decryptor.__init__ was never reached: the key-installation monitor observed nothing", nontrivial=False)
+    last = {}
+    for e in inits:
+        last[e["o"]] = e            # the state an object was last initialised with
+    msgs, n = [], 0
+    for fl in flows:
+        best = None
+        for e in last.values():
+            m = []
+            k = compare_installed(e, fl.conn, fl.conn.spec, p, m)
+            if k and (best is None or len(m) < len(best[1])):
+                best = (k, m)
+        if best is None:
+            msgs.append(f"{fl.label} {fl.ep.describe()}: no key installation with comparable components was observed")
+            continue
+        n += best[0]
+        if best[1]:
+            msgs.append(f"{fl.label} {fl.ep.describe()} (client random {fl.conn.client_random.hex()[:16]}..): none of the {len(last)} installed key sets is this connection's; "
+                        f"the closest differs in {len(best[1])} component(s): {best[1][0]}")
     out["mon"] = {"tls.key_components_compared": n, "tls.decryptor_init_events": len(inits)}
     out["nontrivial"] = n > 0
     if msgs:
-        return dict(out, v="violated", msg=f"{suites.VNAME[v]} {suites.REGISTRY[code]}: " + "; ".join(msgs[:3]), files=files)
+        return dict(out, v="violated", msg=f"{suites.VNAME[v]} {suites.REGISTRY[code]}, {mode}, {'session + resumption(s)' if related else 'unrelated connections'}: " + "; ".join(msgs[:3]), files=files)
     return dict(out, v="held")
 
 
